@@ -423,7 +423,7 @@ def _registration_name(h):
 def registry_rule(prog, rep):
     rep.rule("REGISTRY", "every registered query function takes its Datastore / TNamespace parameters first, in that order (the wrapper strips the injected arguments by position) and the wrappers forward all remaining positional arguments in order; qtypes lists exactly the subclasses of QToken, each defining check, parse and interpret")
     reg = prog.registry()
-    rep.floor("registered query functions", len(reg), 22)
+    rep.floor("registered query functions", len(reg), 18)
     for fi in reg:
         anns = [fi.annotations.get(p) for p in fi.params]
         inj = [a for a in anns if a in ("Datastore", "TNamespace")]
@@ -455,7 +455,7 @@ def registry_rule(prog, rep):
         rep.check(not wrong, "REGISTRY", fi.short, f"arguments of {cal.short}", f"{landed}", f"the built-in hands its argument(s) to the wrong parameter of {cal.short}: {wrong} (same-named parameters must receive the same-named arguments)", fi.loc(c))
         unused = [p for p in own if not any(isinstance(x, ast.Name) and x.id == p for x in ast.walk(fi.node) if not isinstance(x, ast.arg))]
         rep.check(not unused, "REGISTRY", fi.short, "all arguments used", "", f"argument(s) {unused} of the built-in are ignored", fi.loc())
-    rep.floor("single-call built-in wrappers", n_fw, 15)
+    rep.floor("single-call built-in wrappers", n_fw, 12)
     g = prog.func("q2_function.h.g")
     h = prog.func("q2_function.h")
     res = _wrapper_fold(g, h)
